@@ -4,7 +4,7 @@
 From Coq Require Import NArith List.
 From Coq Require Extraction ExtrOcamlBasic.
 From ZB Require Import Base.Bytes Crc.CrcSpec Crc.CrcModel Link.LLHeader Link.LinkSpec Link.Frame Link.Frag Link.Resync Link.Rx Link.RxSpec Link.TxSeq Link.Reasm Link.TxSched
-  Wire.Wty Cmd.Schema Cmd.Command gen.GenSchemas Api.Api.
+  Wire.Wty Cmd.Schema Cmd.Command gen.GenSchemas pinned.PinnedSchemas Api.Api.
 
 Extraction Language OCaml.
 Set Extraction KeepSingleton.
@@ -17,4 +17,4 @@ Extraction "../ocaml/gen/model.ml"
   spec_parse_pos spec_ack_bytes waits
   trun reasm_run tstep_obs tinit t_seq
   Api.step_obs Api.init Api.reqs Api.pack_seq
-  valid enc dec selfdelim nonempty_enc construct_ok enc_params from_body dec_params schema_ok schemas c_ctl c_id.
+  valid enc dec selfdelim nonempty_enc construct_ok enc_params from_body dec_params schema_ok schemas pinned_schemas c_ctl c_id.
